@@ -626,4 +626,305 @@ theorem router_cases (t : List Route) (hal : aligned t expectations = true) (r :
         rw [← any_aligned (p := fun pat => matchPat pat r.segs r.slash) hal]; exact hany
       exact Or.inr (Or.inr (Or.inr ⟨hnil, hany', by first | rfl | trivial⟩))
 
+/-! ### the bundled client -/
+
+theorem metaOf_toQueryMeta (o : Opts) : metaOf (toQueryMeta o) = metaOf o.metadata := by
+  simp [metaOf, toQueryMeta, List.filter_filter]
+
+theorem query_roundtrip (o : Opts) : fromQuery (toQuery o) (toQueryMeta o) = some (normOpts o) := by
+  unfold fromQuery
+  rw [metaOf_toQueryMeta]
+  unfold toQuery
+  cases he : (o.expire == Expiry.zero) <;> cases hu : o.update <;> cases ho : o.origins.isEmpty <;>
+    cases hn : (o.name == 0) <;> cases ha : o.ualloc.isEmpty <;>
+    simp_all [assemble, getq, List.find?, M.mode, M.factors, M.ualloc, M.expiry, intParam, natParam,
+      nameParam, optCidParam, natsParam, normOpts, List.filterMap_map]
+
+def segOK (s : Seg) : Prop := s.txt ≠ "" ∧ s.txt ≠ "recover" ∧ s.txt ≠ "." ∧ s.txt ≠ ".."
+
+theorem handle_mkReq (cfg : CliCfg) (m : String) (segs : List Seg) (q : List (String × QV)) (md : List (Nat × Nat)) (b : Body)
+    (hm : m ≠ "HEAD") :
+    handle Gen.chain Gen.routes (mkReq cfg m segs q md b) =
+      if cliAuthorized cfg then router Gen.routes (mkReq cfg m segs q md b)
+      else { status := 401, body := .docs 1, ops := [] } := by
+  unfold handle headAdjust
+  rw [serve_gen]
+  simp [mkReq, hm, authorized, cliAuthorized, preflight]
+
+/-- the common last step: the built request is routed to a handler that makes one call with the wanted operation -/
+theorem cli_ok_of_respond {cfg : CliCfg} {c : Call} {w : Want} {m : String} {segs : List Seg} {q : List (String × QV)}
+    {md : List (Nat × Nat)} {b : Body} (op : Op) (okSt okDocs errSt nfSt : Nat)
+    (hw : callWant c = some w) (hb : build cfg c = some (mkReq cfg m segs q md b)) (hm : m ≠ "HEAD")
+    (hroute : router Gen.routes (mkReq cfg m segs q md b) = respond (mkReq cfg m segs q md b) op okSt okDocs errSt nfSt)
+    (hok : w.ok op = true) (hst : (okSt = 200 ∨ okSt = 204) ∧ 400 ≤ errSt ∧ 400 ≤ nfSt)
+    (hor : answerHasOrigins c = false) :
+    cliHolds cfg c (clientCall Gen.chain Gen.routes cfg c).1 (clientCall Gen.chain Gen.routes cfg c).2 = true := by
+  unfold clientCall
+  rw [hb]
+  simp only [handle_mkReq cfg m segs q md b hm]
+  cases ha : cliAuthorized cfg
+  · simp [cliHolds, cliClauses, hw, ha, clientRet]
+  · simp only [if_true, hroute]
+    obtain ⟨h1, h2, h3⟩ := hst
+    have hrpc : (mkReq cfg m segs q md b).rpc = cfg.rpc := rfl
+    unfold respond
+    rw [hrpc]
+    cases hr : cfg.rpc
+    · rcases h1 with rfl | rfl <;> simp [cliHolds, cliClauses, hw, ha, clientRet, arrived, hok, hor, hr]
+    · have : ¬ (errSt = 204 ∨ errSt = 202) := by omega
+      simp [cliHolds, cliClauses, hw, ha, clientRet, arrived, hok, hr, isErrRet, h2, this]
+    · have : ¬ (nfSt = 204 ∨ nfSt = 202) := by omega
+      simp [cliHolds, cliClauses, hw, ha, clientRet, arrived, hok, hr, isErrRet, h3, this]
+
+/-- routing of the requests the client builds: evaluated over the generated table -/
+syntax "route_eval" : tactic
+macro_rules
+  | `(tactic| route_eval) =>
+    `(tactic| simp [router, unclean, route, Gen.routes, matchPat, lit, Handler.ofName, mkReq, runHandler, call, isLocal, getq,
+        boolQ, varSeg, parseCid, Option.bind, pick, fromQuery, assemble, M.mode, M.factors, M.ualloc, M.expiry, intParam, natParam, nameParam, optCidParam, natsParam, metaOf, normMeta, pinWithOpts, *])
+
+def CliHolds (cfg : CliCfg) (c : Call) : Prop :=
+  cliHolds cfg c (clientCall Gen.chain Gen.routes cfg c).1 (clientCall Gen.chain Gen.routes cfg c).2 = true
+
+
+theorem ok3 : (200 = 200 ∨ 200 = 204) ∧ 400 ≤ 500 ∧ 400 ≤ 500 := by decide
+
+theorem client_id (cfg : CliCfg) : CliHolds cfg .id :=
+  cli_ok_of_respond ⟨"Cluster.ID", .unit⟩ 200 1 500 500 rfl rfl (by decide) (by route_eval) (by decide) ok3 rfl
+theorem client_version (cfg : CliCfg) : CliHolds cfg .version :=
+  cli_ok_of_respond ⟨"Cluster.Version", .unit⟩ 200 1 500 500 rfl rfl (by decide) (by route_eval) (by decide) ok3 rfl
+theorem client_peers (cfg : CliCfg) : CliHolds cfg .peers :=
+  cli_ok_of_respond ⟨"Cluster.Peers", .unit⟩ 200 1 500 500 rfl rfl (by decide) (by route_eval) (by decide) ok3 rfl
+theorem client_alerts (cfg : CliCfg) : CliHolds cfg .alerts :=
+  cli_ok_of_respond ⟨"Cluster.Alerts", .unit⟩ 200 1 500 500 rfl rfl (by decide) (by route_eval) (by decide) ok3 rfl
+theorem client_graph (cfg : CliCfg) : CliHolds cfg .graph :=
+  cli_ok_of_respond ⟨"Cluster.ConnectGraph", .unit⟩ 200 1 500 500 rfl rfl (by decide) (by route_eval) (by decide) ok3 rfl
+theorem client_metricNames (cfg : CliCfg) : CliHolds cfg .metricNames :=
+  cli_ok_of_respond ⟨"PeerMonitor.MetricNames", .unit⟩ 200 1 500 500 rfl rfl (by decide) (by route_eval) (by decide) ok3 rfl
+
+theorem client_recoverAll (cfg : CliCfg) (l : Bool) : CliHolds cfg (.recoverAll l) :=
+  cli_ok_of_respond ⟨pick l "Cluster.RecoverAll" "Cluster.RecoverAllLocal", .unit⟩ 200 1 500 500 rfl rfl (by decide)
+    (by cases l <;> route_eval) (by cases l <;> decide) ok3 rfl
+theorem client_repoGC (cfg : CliCfg) (l : Bool) : CliHolds cfg (.repoGC l) :=
+  cli_ok_of_respond ⟨pick l "Cluster.RepoGC" "Cluster.RepoGCLocal", .unit⟩ 200 1 500 500 rfl rfl (by decide)
+    (by cases l <;> route_eval) (by cases l <;> decide) ok3 rfl
+
+theorem client_allocations (cfg : CliCfg) (m : Nat) : CliHolds cfg (.allocations m) :=
+  cli_ok_of_respond ⟨"Cluster.Pins", .unit⟩ 200 1 500 500 rfl rfl (by decide)
+    (by by_cases hm : m = 0 <;> route_eval) (by decide) ok3 rfl
+
+theorem client_statusAll (cfg : CliCfg) (m : Nat) (l : Bool) (hw : widen m = m) : CliHolds cfg (.statusAll m l) := by
+  refine cli_ok_of_respond ⟨pick l "Cluster.StatusAll" "Cluster.StatusAllLocal", .num (toString m)⟩ 200 1 500 500 rfl rfl (by decide)
+    ?_ (by simp [Want.ok]) ok3 rfl
+  have h0 : Nat.repr 0 = "0" := by decide
+  by_cases hm : m = 0 <;> cases l <;> route_eval
+
+theorem client_status (cfg : CliCfg) (s : Seg) (l : Bool) (hs : segOK s) (c : Nat) (hc : s.cid = some c) :
+    CliHolds cfg (.status s l) := by
+  obtain ⟨h1, h2, h3, h4⟩ := hs
+  refine cli_ok_of_respond ⟨pick l "Cluster.Status" "Cluster.StatusLocal", .cid c⟩ 200 1 500 500
+    (w := ⟨[pick l "Cluster.Status" "Cluster.StatusLocal"], .cid c⟩)
+    (by simp [callWant, hc]) rfl (by decide) ?_ (by simp [Want.ok]) ok3 rfl
+  cases l <;> route_eval
+
+theorem client_recover (cfg : CliCfg) (s : Seg) (l : Bool) (hs : segOK s) (c : Nat) (hc : s.cid = some c) :
+    CliHolds cfg (.recover s l) := by
+  obtain ⟨h1, h2, h3, h4⟩ := hs
+  refine cli_ok_of_respond ⟨pick l "Cluster.Recover" "Cluster.RecoverLocal", .cid c⟩ 200 1 500 500
+    (w := ⟨[pick l "Cluster.Recover" "Cluster.RecoverLocal"], .cid c⟩)
+    (by simp [callWant, hc]) rfl (by decide) ?_ (by simp [Want.ok]) ok3 rfl
+  cases l <;> route_eval
+
+theorem client_allocation (cfg : CliCfg) (s : Seg) (hs : segOK s) (c : Nat) (hc : s.cid = some c) :
+    CliHolds cfg (.allocation s) := by
+  obtain ⟨h1, h2, h3, h4⟩ := hs
+  refine cli_ok_of_respond ⟨"Cluster.PinGet", .cid c⟩ 200 1 404 404 (w := ⟨["Cluster.PinGet"], .cid c⟩)
+    (by simp [callWant, hc]) rfl (by decide) ?_ (by simp [Want.ok]) (by decide) rfl
+  route_eval
+
+theorem client_unpin (cfg : CliCfg) (s : Seg) (hs : segOK s) (c : Nat) (hc : s.cid = some c) :
+    CliHolds cfg (.unpin s) := by
+  obtain ⟨h1, h2, h3, h4⟩ := hs
+  refine cli_ok_of_respond ⟨"Cluster.Unpin", pinArg { pinWithOpts c (normOpts (pinCid 0).opts) with depth := -1 }⟩ 200 1 500 404
+    (w := ⟨["Cluster.Unpin"], .cidOnly c⟩)
+    (by simp [callWant, hc]) rfl (by decide) ?_ (by simp [Want.ok, pinArg, pinWithOpts]) (by decide) rfl
+  route_eval
+  simp [normOpts, pinCid, metaOf, normMeta]
+
+theorem client_peerRm (cfg : CliCfg) (s : Seg) (hs : segOK s) (p : Nat) (hp : s.pid = some p) :
+    CliHolds cfg (.peerRm s) := by
+  obtain ⟨h1, h2, h3, h4⟩ := hs
+  refine cli_ok_of_respond ⟨"Cluster.PeerRemove", .pid p⟩ 204 0 500 500 (w := ⟨["Cluster.PeerRemove"], .pid p⟩)
+    (by simp [callWant, hp]) rfl (by decide) ?_ (by simp [Want.ok]) (by decide) rfl
+  route_eval
+
+theorem client_peerAdd (cfg : CliCfg) (s : Seg) (p : Nat) (hp : s.pid = some p) :
+    CliHolds cfg (.peerAdd s) := by
+  refine cli_ok_of_respond ⟨"Cluster.PeerAdd", .pid p⟩ 200 1 500 500 (w := ⟨["Cluster.PeerAdd"], .pid p⟩)
+    (by simp [callWant, hp]) rfl (by decide) ?_ (by simp [Want.ok]) ok3 rfl
+  route_eval
+
+theorem client_metrics (cfg : CliCfg) (s : Seg) (hs : segOK s) : CliHolds cfg (.metrics s) := by
+  obtain ⟨h1, h2, h3, h4⟩ := hs
+  refine cli_ok_of_respond ⟨"PeerMonitor.LatestMetrics", .str s.txt⟩ 200 1 500 500 (w := ⟨["PeerMonitor.LatestMetrics"], .str s.txt⟩)
+    rfl rfl (by decide) ?_ (by simp [Want.ok]) ok3 rfl
+  route_eval
+
+syntax "route_eval_q" : tactic
+macro_rules
+  | `(tactic| route_eval_q) =>
+    `(tactic| simp [router, unclean, route, Gen.routes, matchPat, lit, Handler.ofName, mkReq, runHandler, call,
+        varSeg, restSegs, parseCid, parsePinPath, Option.bind, query_roundtrip, *])
+
+theorem client_pin (cfg : CliCfg) (s : Seg) (o : Opts) (hs : segOK s) (c : Nat) (hc : s.cid = some c)
+    (hm : o.mode = .recursive) (ho : o.origins = []) : CliHolds cfg (.pin s o) := by
+  obtain ⟨h1, h2, h3, h4⟩ := hs
+  refine cli_ok_of_respond ⟨"Cluster.Pin", pinArg { pinWithOpts c (normOpts o) with depth := -1 }⟩ 200 1 500 500
+    (w := ⟨["Cluster.Pin"], .pin c (normOpts o)⟩)
+    (by simp [callWant, hc]) rfl (by decide) ?_ (by simp [Want.ok, pinArg, pinWithOpts, depthToMode, normOpts, hm]) ok3
+    (by simp [answerHasOrigins, ho])
+  route_eval_q
+
+theorem clientPath_some {p p' : List Seg} (h : clientPath p = some p') :
+    ∃ k first more, p' = k :: first :: more ∧ (k.txt = "ipfs" ∨ k.txt = "ipns" ∨ k.txt = "ipld") ∧
+      pathOf pinsPath (lit "pins" :: p') = some (pathString p') ∧ (∀ s ∈ p', s ∈ p ∨ s = lit "ipfs") := by
+  unfold clientPath at h
+  cases p with
+  | nil => simp at h
+  | cons k rest =>
+    simp only at h
+    by_cases hk : (k.txt == "ipfs" || k.txt == "ipld" || k.txt == "ipns") = true
+    · simp only [hk, if_true] at h
+      cases hp : pathOf [.alt "keyType" ["ipfs", "ipns", "ipld"], .rest "path"] (k :: rest) with
+      | none => simp [hp] at h
+      | some x =>
+        simp only [hp, Option.some.injEq] at h
+        subst h
+        cases rest with
+        | nil => simp [pathOf, varSeg, restSegs] at hp
+        | cons first more =>
+          refine ⟨k, first, more, rfl, ?_, ?_, fun s hs => Or.inl hs⟩
+          · simp only [Bool.or_eq_true, beq_iff_eq] at hk
+            rcases hk with (hk | hk) | hk
+            · exact Or.inl hk
+            · exact Or.inr (Or.inr hk)
+            · exact Or.inr (Or.inl hk)
+          · simp only [pathOf, varSeg, restSegs, pinsPath] at hp ⊢
+            have hkt : (("keyType" : String) == "keyType") = true := by decide
+            simp only [hkt, if_true] at hp ⊢
+            generalize (if (k.txt == "ipfs" || k.txt == "ipld") = true then first.cid.isSome
+              else if (k.txt == "ipns") = true then first.txt != "" else false) = cnd at hp ⊢
+            cases cnd
+            · simp at hp
+            · simp [pathString]
+    · have hk' : (k.txt == "ipfs" || k.txt == "ipld" || k.txt == "ipns") = false := by simpa using hk
+      simp only [hk', Bool.false_eq_true, if_false] at h
+      by_cases hc : k.cid.isSome = true
+      · simp only [hc, if_true, Option.some.injEq] at h
+        subst h
+        refine ⟨lit "ipfs", k, rest, rfl, Or.inl rfl, ?_, ?_⟩
+        · simp [pathOf, varSeg, restSegs, pinsPath, lit, hc, pathString]
+        · intro s hs
+          simp only [List.mem_cons] at hs ⊢
+          rcases hs with rfl | hs
+          · exact Or.inr rfl
+          · exact Or.inl hs
+      · simp [hc] at h
+
+theorem unclean_mkReq_false (cfg : CliCfg) (m : String) (segs : List Seg) (q : List (String × QV)) (md : List (Nat × Nat)) (b : Body)
+    (h : ∀ s ∈ segs, segOK s) : unclean (mkReq cfg m segs q md b) = false := by
+  unfold unclean mkReq
+  simp only [List.any_eq_false]
+  intro s hs
+  obtain ⟨h1, _, h3, h4⟩ := h s hs
+  simp [h1, h3, h4]
+
+theorem segOK_lit_pins : segOK (lit "pins") := by unfold segOK lit; decide
+theorem segOK_lit_ipfs : segOK (lit "ipfs") := by unfold segOK lit; decide
+
+/-- the request of a path call reaches the path handler of its method -/
+theorem route_path (cfg : CliCfg) (m : String) (h : Handler) (hm : (m = "POST" ∧ h = .pinPath) ∨ (m = "DELETE" ∧ h = .unpinPath))
+    (k first : Seg) (more : List Seg) (hk : k.txt = "ipfs" ∨ k.txt = "ipns" ∨ k.txt = "ipld")
+    (hok : ∀ s ∈ k :: first :: more, segOK s) (q : List (String × QV)) (md : List (Nat × Nat)) :
+    router Gen.routes (mkReq cfg m (lit "pins" :: k :: first :: more) q md .none) =
+      runHandler h (mkReq cfg m (lit "pins" :: k :: first :: more) q md .none) pinsPath := by
+  have hu := unclean_mkReq_false cfg m (lit "pins" :: k :: first :: more) q md .none (by
+    intro s hs
+    simp only [List.mem_cons] at hs
+    rcases hs with rfl | hs
+    · exact segOK_lit_pins
+    · exact hok s (by simpa using hs))
+  obtain ⟨hf1, hf2, _, _⟩ := hok first (by simp)
+  obtain ⟨hk1, hk2, _, _⟩ := hok k (by simp)
+  unfold router
+  rw [hu]
+  rcases hm with ⟨rfl, rfl⟩ | ⟨rfl, rfl⟩ <;> rcases hk with hk | hk | hk <;>
+    simp [route, Gen.routes, matchPat, lit, Handler.ofName, mkReq, pinsPath, hk, hf1, hf2, hk1, hk2]
+
+theorem client_pinPath (cfg : CliCfg) (p : List Seg) (o : Opts) (hs : ∀ s ∈ p, segOK s) (ho : o.origins = []) :
+    CliHolds cfg (.pinPath p o) := by
+  cases hp : clientPath p with
+  | none =>
+    simp [CliHolds, clientCall, build, hp, cliHolds, cliClauses, callWant]
+  | some p' =>
+    obtain ⟨k, first, more, rfl, hk, hpath, hmem⟩ := clientPath_some hp
+    have hok : ∀ s ∈ k :: first :: more, segOK s := by
+      intro s hs'
+      rcases hmem s hs' with h | rfl
+      · exact hs s h
+      · exact segOK_lit_ipfs
+    refine cli_ok_of_respond ⟨"Cluster.PinPath", .path (pathString (k :: first :: more)) (normOpts o)⟩ 200 1 500 500
+      (w := ⟨["Cluster.PinPath"], .path (pathString (k :: first :: more)) (normOpts o)⟩)
+      (m := "POST") (segs := lit "pins" :: k :: first :: more) (q := toQuery o) (md := toQueryMeta o) (b := .none)
+      (by simp [callWant, hp]) (by simp [build, hp]) (by decide) ?_ (by simp [Want.ok]) ok3
+      (by simp [answerHasOrigins, ho])
+    rw [route_path cfg "POST" .pinPath (Or.inl ⟨rfl, rfl⟩) k first more hk hok]
+    have hq : fromQuery (mkReq cfg "POST" (lit "pins" :: k :: first :: more) (toQuery o) (toQueryMeta o) .none).query
+        (mkReq cfg "POST" (lit "pins" :: k :: first :: more) (toQuery o) (toQueryMeta o) .none).md = some (normOpts o) :=
+      query_roundtrip o
+    have hpo : pathOf pinsPath (mkReq cfg "POST" (lit "pins" :: k :: first :: more) (toQuery o) (toQueryMeta o) .none).segs =
+        some (pathString (k :: first :: more)) := hpath
+    simp [runHandler, parsePinPath, hq, hpo, call]
+
+theorem client_unpinPath (cfg : CliCfg) (p : List Seg) (hs : ∀ s ∈ p, segOK s) :
+    CliHolds cfg (.unpinPath p) := by
+  cases hp : clientPath p with
+  | none =>
+    simp [CliHolds, clientCall, build, hp, cliHolds, cliClauses, callWant]
+  | some p' =>
+    obtain ⟨k, first, more, rfl, hk, hpath, hmem⟩ := clientPath_some hp
+    have hok : ∀ s ∈ k :: first :: more, segOK s := by
+      intro s hs'
+      rcases hmem s hs' with h | rfl
+      · exact hs s h
+      · exact segOK_lit_ipfs
+    refine cli_ok_of_respond ⟨"Cluster.UnpinPath", .path (pathString (k :: first :: more)) (normOpts (pinCid 0).opts)⟩ 200 1 500 404
+      (w := ⟨["Cluster.UnpinPath"], .pathOnly (pathString (k :: first :: more))⟩)
+      (m := "DELETE") (segs := lit "pins" :: k :: first :: more) (q := []) (md := []) (b := .none)
+      (by simp [callWant, hp]) (by simp [build, hp]) (by decide) ?_ (by simp [Want.ok]) (by decide) rfl
+    rw [route_path cfg "DELETE" .unpinPath (Or.inr ⟨rfl, rfl⟩) k first more hk hok]
+    have hpo : pathOf pinsPath (mkReq cfg "DELETE" (lit "pins" :: k :: first :: more) [] [] .none).segs =
+        some (pathString (k :: first :: more)) := hpath
+    have hq : fromQuery (mkReq cfg "DELETE" (lit "pins" :: k :: first :: more) [] [] .none).query
+        (mkReq cfg "DELETE" (lit "pins" :: k :: first :: more) [] [] .none).md = some (normOpts (pinCid 0).opts) := by
+      simp [mkReq, fromQuery, assemble, M.mode, M.factors, M.ualloc, M.expiry, intParam, natParam, nameParam, optCidParam,
+        natsParam, metaOf, normMeta, getq, normOpts, pinCid]
+    simp [runHandler, parsePinPath, hq, hpo]
+
+/-! ### small facts about the generated chain used by Props -/
+
+theorem handle_unauthorized (t : List Route) (r : Req) (h : authorized r = false) :
+    handle Gen.chain t r = headAdjust r { status := 401, body := .docs 1, ops := [] } := by
+  unfold handle; rw [serve_gen]; simp [h]
+
+theorem handle_preflight (t : List Route) (r : Req) (ha : authorized r = true) (h : preflight r = true) :
+    handle Gen.chain t r = headAdjust r { status := 204, body := .docs 0, ops := [] } := by
+  unfold handle; rw [serve_gen]; simp [ha, h]
+
+/-- what `holds` says about the body -/
+theorem holds_single {r : Req} {o : Resp} (h : holds r o = true) : singleDocument r o = true := by
+  unfold holds clauses at h
+  simp only [List.all_append, List.all_cons, Bool.and_eq_true] at h
+  exact h.1.2.1
+
 end CV.C11
